@@ -316,6 +316,17 @@ partial def anyElem (p : Str → List VNode → Bool) : List VNode → Bool
   | .islandChildren ks :: r => anyElem p ks || anyElem p r
   | _ :: r => anyElem p r
 
+/-- does some primitive child (anywhere) satisfy `p`? -/
+partial def anyPrim (p : Str → Bool) : List VNode → Bool
+  | [] => false
+  | .prim s :: r => p s || anyPrim p r
+  | .elem _ _ ks :: r => anyPrim p ks || anyPrim p r
+  | .seq ks :: r => anyPrim p ks || anyPrim p r
+  | .vec ks :: r => anyPrim p ks || anyPrim p r
+  | .island _ _ ks :: r => anyPrim p ks || anyPrim p r
+  | .islandChildren ks :: r => anyPrim p ks || anyPrim p r
+  | _ :: r => anyPrim p r
+
 /-- number of string / primitive items directly in a child list (through containers) -/
 partial def leafCount : List VNode → Nat
   | [] => 0
@@ -333,6 +344,8 @@ def viewClass (v : List VNode) : String :=
     then "raw-text-child"
   else if anyStr (· = cNul) ss then "nul-char"
   else if anyStr (· = cCr) ss then "cr-char"
+  -- F-C06-7: a `char` child `<` / `&` is printed raw (before fix-c06-5)
+  else if !primEscaped && anyPrim (fun s => s.any (fun c => c = '<' || c = '&')) v then "prim-unescaped"
   -- repaired textarea: several strings are still joined by a literal `<!>` (view shape, F-C18-2)
   else if anyElem (fun t ks => t = tTextarea && textareaEscaped && leafCount ks ≥ 2) v then "rcdata-marker"
   else if anyElem (fun t ks => t = tTextarea && textareaEscaped && !textareaLfGuard &&
@@ -443,12 +456,12 @@ partial def canon : List Tree → String
     s!"E{hexPlain t};" ++ String.join (a.map fun (n, v) => s!"A{hexPlain n}={hexPlain v};") ++ ">" ++ canon ks ++ "<" ++ canon r
 
 /-- the model's side of one paint: its HTML parsed and normalised, against the resolved view -/
-def paint (v : List VNode) : String × Option String :=
-  match parse (vToHtml v) with
+def paint (asIs spec : List VNode) : String × Option String :=
+  match parse (vToHtml asIs) with
   | some t =>
     let n := normList t
-    (canon n, if n = normList (vStructureOf v) then none else some (viewClass v))
-  | none => ("none", some (viewClass v))
+    (canon n, if n = normList (vStructureOf spec) then none else some (viewClass spec))
+  | none => ("none", some (viewClass spec))
 
 def step (_ : Unit) (line : String) : Unit × String :=
   let out :=
@@ -478,11 +491,12 @@ def step (_ : Unit) (line : String) : Unit × String :=
           match o.2 with
           | none => s!"{o.1} ## ok"
           | some c => s!"{o.1} ## fail {c}"
-        if mode == "s" then show1 (paint first)
-        else if mode == "i" then show1 (paint settled)
+        -- the in-order stream gives up the marker after a pending <Suspense> (resolveInOrder)
+        if mode == "s" then show1 (paint first first)
+        else if mode == "i" then show1 (paint (resolveInOrderKids [] ws) settled)
         else if mode == "o" then
-          let a := paint first
-          let b := paint settled
+          let a := paint first first
+          let b := paint settled settled
           let obs := s!"{a.1}|{b.1}"
           match a.2, b.2 with
           | none, none => s!"{obs} ## ok"
